@@ -279,6 +279,14 @@ class LambdaElement(elements.ClauseElement):
                         lambda_cache[key] = rec
                     else:
                         rec = lambda_cache[key]
+                        bindparams[:] = [
+                            orig_bind._with_value(
+                                new_bind.value, maintain_key=True
+                            )
+                            for orig_bind, new_bind in zip(
+                                rec.closure_bindparams, bindparams
+                            )
+                        ]
             else:
                 rec = NonAnalyzedFunction(self._invoke_user_fn(fn))
 
